@@ -18,6 +18,7 @@ import (
 
 	consumertypes "github.com/cosmos/interchain-security/v7/x/ccv/consumer/types"
 	providertypes "github.com/cosmos/interchain-security/v7/x/ccv/provider/types"
+	ccv "github.com/cosmos/interchain-security/v7/x/ccv/types"
 )
 
 // ---------------------------------------------------------------------------------------------------------
@@ -578,6 +579,26 @@ func (m *monC16) AfterBlock(c *Chain, req *abci.RequestFinalizeBlock, res *abci.
 			}
 			a, _ := math.NewIntFromString(d.Amount)
 			pd := l.ProviderDenom(d.Denom)
+			if isUserTransfer(d) {
+				// the consumer to credit is the one the memo names (that is how the protocol identifies the sender); without a reward
+				// memo it is the consumer of the channel's client; a memo naming no known consumer leaves the tokens uncredited
+				to := l.CID
+				if rm, err := ccv.GetRewardMemoFromTransferMemo(d.Memo); err == nil {
+					to = rm.ConsumerId
+					if _, err := w.P.PApp.ProviderKeeper.GetConsumerChainId(w.P.Ctx(), to); err != nil {
+						to = ""
+					}
+				}
+				w.Event("C16", "user-transfers-into-the-rewards-pool")
+				if to != l.CID {
+					w.Event("C16", "user-transfers-naming-another-or-no-consumer")
+				}
+				if to != "" {
+					recvCredit[to] = recvCredit[to].Add(sdk.NewDecCoin(pd, a))
+				}
+				recvPool = recvPool.Add(sdk.NewCoin(pd, a))
+				continue
+			}
 			recvCredit[l.CID] = recvCredit[l.CID].Add(sdk.NewDecCoin(pd, a))
 			tallyAdd(m.creditedFor, l.CID, d.Denom, a)
 			w.Infof("C16 transfer received consumer=%s seq=%d %s%s", l.CID, rp.Packet.Sequence, d.Amount, d.Denom)
@@ -605,6 +626,12 @@ func (m *monC16) AfterBlock(c *Chain, req *abci.RequestFinalizeBlock, res *abci.
 			}
 		}
 	}
+}
+
+// isUserTransfer: a transfer into the rewards pool that was not sent by the consumer module's own account (an ordinary user of the
+// consumer chain can send one, with any memo). It is not part of the consumer's reward stream.
+func isUserTransfer(d transfertypes.FungibleTokenPacketData) bool {
+	return d.Sender != authtypes.NewModuleAddress(consumertypes.ConsumerToSendToProviderName).String()
 }
 
 func tallyAdd(t map[string]map[string]math.Int, id, denom string, a math.Int) {
@@ -648,6 +675,9 @@ func (m *monC16) tallyRefunds(c *Chain, txs []TxOutcome) {
 			if err := transfertypes.ModuleCdc.UnmarshalJSON(pkt.Data, &d); err != nil {
 				continue
 			}
+			if isUserTransfer(d) {
+				continue
+			}
 			a, _ := math.NewIntFromString(d.Amount)
 			tallyAdd(m.refunded, c.ConsumerID, d.Denom, a)
 			m.w.Infof("C16 transfer refunded consumer=%s seq=%d %s%s", c.ConsumerID, pkt.Sequence, d.Amount, d.Denom)
@@ -675,7 +705,7 @@ func (m *monC16) Final() {
 					continue
 				}
 				var d transfertypes.FungibleTokenPacketData
-				if transfertypes.ModuleCdc.UnmarshalJSON(f.Packet.Data, &d) == nil {
+				if transfertypes.ModuleCdc.UnmarshalJSON(f.Packet.Data, &d) == nil && !isUserTransfer(d) {
 					a, _ := math.NewIntFromString(d.Amount)
 					cur, ok := inflight[d.Denom]
 					if !ok {
